@@ -159,9 +159,18 @@ def run(ctx, rep):
     at = cnt.get(gc.exit.id, frozenset())
     # early-return path (already closed and not _anyway) has 0; the working path exactly 1
     okh = at <= frozenset([0, 1]) and 1 in at and len(hook) == 1 and not A.in_loop(hook[0].ast, fc.node)
+    # once the connection has been marked closed (the working path) the hook runs on EVERY path - no test decides whether the
+    # service is told (a truthiness test of the service object is false for a service that defines __len__/__bool__)
+    if okh and setf:
+        cnt2 = Q.count_on_paths(gc, setf[0], lambda n: n.id in ids)
+        at2 = cnt2.get(gc.exit.id, frozenset())
+        if at2 != frozenset([1]):
+            okh = False
+            at = at2
     rep.ob("R11.2", "_cleanup: on_disconnect runs exactly once on the working path", okh,
            "one call site, not in a loop; counts at exit %s (0 = early return when already closed)" % sorted(at) if okh
-           else "on_disconnect can run %s times in one _cleanup" % sorted(at), ctx.loc(hook[0]))
+           else "after the connection has been marked closed on_disconnect runs %s times depending on the path (a guard such as "
+                "`if self._local_root:` skips the hook for a service object that is falsy)" % sorted(at), ctx.loc(hook[0]))
     # the early return is guarded by flag-and-not-anyway
     rets = [n for n in gc.live if n.kind == "stmt" and isinstance(n.ast, ast.Return)]
     for r in rets:
